@@ -1,3 +1,4 @@
+import HttpcoreModel.Props.C08Global
 import HttpcoreModel.Props.C04
 import HttpcoreModel.Props.C05
 import HttpcoreModel.Props.C01
